@@ -80,11 +80,25 @@ _clears = bool(re.search(r"nni_lmq_empty\(&ctx->lmq\)[^;{]*\{?\s*nni_pollable_cl
 extra_text.append("Definition C05_SUB_UNSUB_CLEARS_POLL : bool := %s.  (* sub.c sub0_ctx_unsubscribe clears sock->readable when the master queue is purged to empty *)"
                   % ("true" if _clears else "false"))
 
-# ---- which form of nni_msgq_aio_get: nni_aio_start before anything else?
+# ---- which form of nni_msgq_aio_get: nni_aio_start before anything else (pinned), or only when the
+#      operation has to wait (repaired: another reader ahead, or nothing queued and no writer waiting)?
 _m = _need(re.search(r"\nnni_msgq_aio_get\(nni_msgq \*mq, nni_aio \*aio\)\s*\{(.*?)\n\}\n", _mq, re.S), "nni_msgq_aio_get in msgqueue.c")
-_g = _m.group(1) if _m else ""
+_g = re.sub(r"//[^\n]*", "", _m.group(1)) if _m else ""
 _start_first = bool(re.match(r"\s*nni_mtx_lock\(&mq->mq_lock\);\s*if \(!nni_aio_start\(aio, nni_msgq_cancel, mq\)\)", _g))
-if _g and "nni_aio_start" not in _g:
-    missing.append("nni_aio_start in nni_msgq_aio_get")
-extra_text.append("Definition C05_MSGQ_GET_TRIES_FIRST : bool := %s.  (* msgqueue.c nni_msgq_aio_get looks at the queue before nni_aio_start *)"
-                  % ("false" if _start_first else "true"))
+_start_if_wait = bool(re.match(r"\s*nni_mtx_lock\(&mq->mq_lock\);\s*if \(\(!nni_list_empty\(&mq->mq_aio_getq\)\)\s*\|\|\s*"
+                               r"\(\(mq->mq_len == 0\)\s*&&\s*nni_list_empty\(&mq->mq_aio_putq\)\)\)\s*\{\s*"
+                               r"if \(!nni_aio_start\(aio, nni_msgq_cancel, mq\)\)", _g))
+if _g and not (_start_first or _start_if_wait):
+    missing.append("nni_msgq_aio_get: neither the pinned nor the repaired placement of nni_aio_start")
+extra_text.append("Definition C05_MSGQ_GET_TRIES_FIRST : bool := %s.  (* msgqueue.c nni_msgq_aio_get calls nni_aio_start only when it has to wait *)"
+                  % ("true" if _start_if_wait else "false"))
+# ---- nni_msgq_resize: are the queues / run_notify re-run before unlocking?
+_m = _need(re.search(r"\nnni_msgq_resize\(nni_msgq \*mq, int cap\)\s*\{(.*?)\n\}\n", _mq, re.S), "nni_msgq_resize in msgqueue.c")
+_r = re.sub(r"//[^\n]*", "", _m.group(1)) if _m else ""
+_need(re.search(r"while \(mq->mq_len > \(\(unsigned\) cap \+ 1\)\)", _r), "nni_msgq_resize drop rule (len > cap + 1)")
+_rs = bool(re.search(r"out:\s*nni_msgq_run_putq\(mq\);\s*nni_msgq_run_getq\(mq\);\s*nni_msgq_run_notify\(mq\);\s*nni_mtx_unlock", _r))
+_rs_pinned = bool(re.search(r"out:\s*nni_mtx_unlock", _r))
+if _r and not (_rs or _rs_pinned):
+    missing.append("nni_msgq_resize: neither the pinned nor the repaired epilogue")
+extra_text.append("Definition C05_MSGQ_RESIZE_NOTIFIES : bool := %s.  (* msgqueue.c nni_msgq_resize re-runs the queues and run_notify *)"
+                  % ("true" if _rs else "false"))
